@@ -41,4 +41,33 @@ theorem floatvector_rand_guard (ρ : Oracle) (s : State) (n : Int32) (il : List 
   simp only [semFull, sem, fullExt, semVec, semVecF, h, hf, hn]
   exact popsOnly_of _ _ ⟨0, rfl⟩ ⟨1, by simp [h]⟩ ⟨2, by simp [hf]⟩ ⟨rfl, rfl, rfl, rfl, rfl, rfl, rfl, rfl, rfl, rfl, rfl, rfl, rfl⟩
 
+/-- **C10 (RAND guards, one statement).** Whenever a documented guard of a `*VECTOR.RAND` instruction fails, the
+operands are consumed and nothing is pushed or created -/
+theorem rand_guard_failed_only_pops (ρ : Oracle) (i : Instr) (s : State) (h : randGuardFails i s = true) :
+    PopsOnly s (semFull ρ i s) := by
+  unfold randGuardFails at h
+  split at h
+  · split at h
+    · rename_i size mx mn il hs
+      refine intvector_rand_guard ρ s size mx mn il hs ?_
+      simpa using h
+    · cases h
+  · split at h
+    · rename_i n il sp fl hi hf
+      refine boolvector_rand_guard ρ s n il sp fl hi hf ?_
+      rcases Bool.or_eq_true _ _ |>.mp h with h1 | h1
+      · exact .inl (by simpa using h1)
+      · exact .inr (by cases hb : (sp ≥ 0 && sp ≤ 1) <;> simp_all)
+    · cases h
+  · split at h
+    · rename_i n il mean sd fl hi hf
+      refine floatvector_rand_guard ρ s n il mean sd fl hi hf ?_
+      simp only [Bool.or_eq_true, decide_eq_true_eq, Bool.not_eq_true'] at h
+      rcases h with (h1 | h1) | h1
+      · exact .inl h1
+      · exact .inr (.inl h1)
+      · exact .inr (.inr h1)
+    · cases h
+  · cases h
+
 end Pushr.C10
